@@ -22,6 +22,8 @@ from harness import geo_sym as GS
 
 PID = 'C18'
 GROUP_TIMEOUT_MS = 400
+MAX_FAILURES_PER_TASK = 6     # a task with this many counterexamples stops exploring further paths
+TASK_WALL_S = 1500
 ATMOS_VOLUME = 1.e25      # default of mulgrid(atmos_volume=) and of rectgeo(atmos_volume=)
 
 _LD = None
@@ -70,11 +72,13 @@ def task_rectgeo(shape, atm, conv, conv2=None, free=(), snap='off', fix=None, pr
     nx, ny, nz = shape
     if conv2 is None: conv2 = conv
     failures, samples, distinct = [], [], set()
+    failed_labels = set()    # once an obligation kind has a counterexample in this task it is not re-proved
     state = dict(reached=0)
     cfg = dict(shape=list(shape), atm=atm, convention=conv, convention2=conv2, free=list(free), snap=snap)
     layer_snap = 0.0 if snap == 'off' else 0.1
 
     def h(c):
+        if len(failures) >= MAX_FAILURES_PER_TASK: return 'not explored: the task already has counterexamples'
         inp = dict(dx=[_pos(c, 'dx%d' % i) for i in range(nx)], dy=[_pos(c, 'dy%d' % i) for i in range(ny)],
                    dz=[_pos(c, 'dz%d' % i) for i in range(nz)], origin=[c.real('ox'), c.real('oy'), c.real('oz')])
         mesh = GB.oracle_mesh('rect', inp)
@@ -205,9 +209,13 @@ def task_rectgeo(shape, atm, conv, conv2=None, free=(), snap='off', fix=None, pr
         # discharge (per item, conjunction first with a short limit, then one by one)
         def prove_one(ob, where):
             r = c.prove(GS.formula(ob), ob[0], info=where)
+            if r != 'unsat': failed_labels.add(ob[0])
             if r == 'sat': record(ob[0], '%s fails at %s' % (ob[0], where), c.failures[-1]['model'])
         groups, order_ = {}, []
         for ob, where in pending:
+            if ob[0] in failed_labels:
+                c.stats['ob_skipped_after_failure'] = c.stats.get('ob_skipped_after_failure', 0) + 1
+                continue
             f = z3.simplify(GS.formula(ob))
             if z3.is_true(f):
                 c.stats['obligations'] += 1; c.stats['ob_unsat'] += 1
@@ -223,14 +231,15 @@ def task_rectgeo(shape, atm, conv, conv2=None, free=(), snap='off', fix=None, pr
                 if r == 'unsat':
                     c.stats['obligations'] += len(fs); c.stats['ob_unsat'] += len(fs)
                     continue
-            for f, ob in fs: prove_one(ob, where)
+            for f, ob in fs:
+                if ob[0] not in failed_labels: prove_one(ob, where)
         if len(samples) < 1:
             samples.append(dict(config=cfg, blockmap=dict(list(sorted(bm.items()))[:6]),
                                 example_obligation='surface of column 0: %s == %s' % (
                                     GS.zterm(geo2.columnlist[0].surface).sexpr()[:200], GS.zterm(surf[0]).sexpr()[:120])))
         return '%d blocks %d connections' % (len(n1), len(k1))
 
-    res = sym.explore(h, GS.FastCtx(timeout_ms=30000), max_paths=5000, profile_repo=profile)
+    res = sym.explore(h, GS.FastCtx(timeout_ms=30000), max_paths=5000, wall_s=TASK_WALL_S, profile_repo=profile)
     if state['reached'] == 0: res['exhausted'] = False
     name = 'rect%dx%dx%d/atm%d/conv%d->%d/free:%s/snap-%s%s' % (
         nx, ny, nz, atm, conv, conv2, ','.join(map(str, free)) or '-', snap,
@@ -254,23 +263,95 @@ def catalogue(tier):
     def add_split(nsplit, **kw):
         for k2 in split(kw, kw['shape'][2], nsplit): T.append((task_rectgeo, k2))
     quick = (tier == 'quick')
-    # (1) 3-D 2x2x2: every atmosphere type x naming convention, one stepped column
+    # (1) every atmosphere type x naming convention: on the 2-D mesh 2x1x2 in the quick tier,
+    #     on the 3-D mesh 2x2x2 in the thorough tier (one stepped column)
     for i, (atm, conv) in enumerate(itertools.product((0, 1, 2), (0, 1, 2, 3))):
-        add(shape=(2, 2, 2), atm=atm, conv=conv, free=[i % 4], profile=(i == 0))
-    # (2) two stepped columns; rectgeo's default layer_snap; a different convention for the new geometry
-    add_split(1, shape=(2, 2, 2), atm=1, conv=0, free=[0, 3])
-    add(shape=(2, 2, 2), atm=0, conv=2, conv2=3, free=[3], snap='default')
-    add(shape=(2, 2, 2), atm=2, conv=1, conv2=0, free=[1], snap='default')
-    # (3) 2-D meshes: a single block in y, a single block in x
+        if quick: add(shape=(2, 1, 2), atm=atm, conv=conv, free=[i % 2])
+        else: add_split(1, shape=(2, 2, 2), atm=atm, conv=conv, free=[i % 4])
+    # (2) 3-D 2x2x2, one stepped column per atmosphere type; rectgeo's default layer_snap;
+    #     a different convention for the new geometry
+    if quick:
+        for atm, conv, col in ((0, 0, 0), (1, 3, 1), (2, 1, 3)):
+            add_split(1, shape=(2, 2, 2), atm=atm, conv=conv, free=[col], profile=(atm == 0))
+    add_split(1, shape=(2, 2, 2), atm=0, conv=2, conv2=3, free=[3], snap='default')
+    if not quick:
+        add_split(1, shape=(2, 2, 2), atm=2, conv=1, conv2=0, free=[1], snap='default')
+        add_split(1, shape=(2, 2, 2), atm=1, conv=0, free=[0, 3])
+    # (3) 2-D meshes (a single block in y / in x), both or two of three columns stepped
     for atm in (0, 1, 2):
-        add(shape=(2, 1, 2), atm=atm, conv=atm, free=[0])
-        add(shape=(1, 2, 2), atm=atm, conv=atm + 1, free=[1])
+        add(shape=(2, 1, 2), atm=atm, conv=atm, free=[0, 1])
+        add(shape=(1, 2, 2), atm=atm, conv=atm + 1, free=[0, 1])
+    add_split(1, shape=(3, 1, 2), atm=2, conv=0, free=[0, 1])
+    add_split(1, shape=(1, 3, 2), atm=2, conv=3, free=[0, 2])
+    if quick: return T
+    # ---- thorough only
+    # (4) 2x2x2 with three / all four stepped columns
+    add_split(2, shape=(2, 2, 2), atm=1, conv=0, free=[0, 1, 2, 3])
+    add_split(1, shape=(2, 2, 2), atm=0, conv=3, free=[0, 1, 3])
+    add_split(1, shape=(2, 2, 2), atm=2, conv=1, conv2=2, free=[1, 2, 3])
+    # (5) three layers
+    for atm in (0, 1, 2):
+        add_split(1, shape=(2, 2, 3), atm=atm, conv=atm, free=[0, 3])
+    add_split(1, shape=(2, 2, 3), atm=1, conv=2, free=[1, 2], snap='default')
+    # (6) 3x3x3 (the largest size claimed): one stepped column - centre, origin column, far corner
+    for atm, col in ((0, 4), (1, 0), (2, 8), (2, 0)):
+        add_split(1, shape=(3, 3, 3), atm=atm, conv=atm, free=[col])
+    # (7) unequal numbers of blocks per direction
+    add_split(1, shape=(3, 2, 2), atm=0, conv=1, free=[0, 4])
+    add_split(1, shape=(2, 3, 2), atm=1, conv=0, free=[1, 4])
+    add_split(1, shape=(3, 2, 2), atm=2, conv=3, free=[2, 3])
+    # (8) larger 2-D meshes
+    for atm in (0, 1, 2):
+        add_split(1, shape=(3, 1, 3), atm=atm, conv=atm, free=[0, 1])
+        add_split(1, shape=(1, 3, 3), atm=atm, conv=3 - atm, free=[0, 2])
+        add_split(1, shape=(3, 1, 2), atm=atm, conv=atm, free=[0, 1, 2])
     return T
 
 
 def run(tier, seed, rep):
     _load()
     tasks = catalogue(tier)
+    if seed:
+        import random
+        random.Random(seed).shuffle(tasks)
     rep.add_results(report.run_tasks(tasks))
+    quick = (tier == 'quick')
+    rep.bounds += [
+        'rotation angle 0 only (the geometry is never rotated; rectgeo itself computes the angle and must find 0)',
+        'values: every spacing > 0 and the origin are arbitrary reals (exact real arithmetic); surfaces: any real from the top of the '
+        'bottom layer upwards (on a layer boundary, inside a layer, at the top, above the top - each arrangement is a path)',
+        'sizes: ' + ('3-D 2x2x2 (one stepped column per atmosphere type); 2-D 2x1x2, 1x2x2 (both columns stepped), 3x1x2, 1x3x2 (two stepped columns)'
+                     if quick else
+                     '3-D 2x2x2 (1, 2, 3 and all 4 stepped columns), 2x2x3, 3x2x2, 2x3x2 (two stepped columns), 3x3x3 (one stepped column: '
+                     'centre, origin column, far corner); 2-D 2x1x2, 1x2x2, 3x1x2, 1x3x2, 3x1x3, 1x3x3 (two or three stepped columns)'),
+        'atmosphere types 0/1/2 (the same type is passed to rectgeo), all 4 naming conventions for the original geometry, '
+        'the reconstructed geometry named with the same or a different convention',
+        'layer_snap = 0 (exact inverse) and the default 0.1 (with the assumption that no surface block is thinner than that)',
+    ]
+    rep.outside += [
+        'non-zero rotation (needs asin / cos / sin of symbolic arguments)',
+        'sizes beyond 3x3x3 (the quantifier goes to 12x12x14); more than ' + ('one' if quick else 'four') + ' stepped columns',
+        'inactive (zero- or huge-volume) boundary blocks and remove_inactive=True',
+        'the data-file round trip between fromgeo and rectgeo (t2data write/read is property C01)',
+        'grids whose atmosphere volume / atmosphere connection distance differ from the library defaults: rectgeo builds the new '
+        'geometry with the defaults, so those two numbers are not reproduced (agreed with the coordinator: a stated assumption)',
+        'surfaces entirely below the top of the top layer: the top layer thickness is then not contained in the grid',
+        'IEEE rounding (exact real arithmetic)',
+    ]
+    rep.assumptions += [
+        'at least the bottom layer complete: every surface >= top of the bottom layer',
+        'some column reaches the top of the geometry (columns that are not stepped stay at the default surface)',
+        'every rock block volume is in (0, 1e25) = below rectgeo\'s default atmos_volume threshold; atmosphere volume 1e25 and '
+        'atmosphere connection distance 1e-6 (library defaults)',
+        'the forward conversion mulgrid.rectangular + fromgeo (property C04) supplies the grid; no data file in between',
+        "layer_snap 'default': every surface block at least float(0.1) thick",
+        'vector_heading: asin of an argument that the solver proves equal to 1, -1 or 0 on the path is replaced by its value '
+        '(npshim._sym_asin, "concretise when unique")',
+    ]
+    rep.trusted += ['harness/geo_oracle.py rect_mesh / layer_levels (cumulative sums of the spacings)',
+                    'harness/geo_sym.py FastCtx (branch-decision cache, UNSAT query cache, qfnra-nlsat front end with fall-back)']
+    rep.extra['invalid_models_rechecked'] = sum(r.get('stats', {}).get('invalid_models', 0) for r in rep.results)
     rep.process_failures()
-    return rep.finish(rule='one obligation = one (label, z3 formula) per node / column / layer / block / connection on one path')
+    return rep.finish(rule='one obligation = one (label, z3 formula) per node / column / layer / block / connection on one path '
+                           '(pc AND NOT formula must be unsat); list comparisons (names, orders, block map) are concrete per path; '
+                           'distinct = distinct non-constant simplified formulas by (label, AST hash) per task')
